@@ -475,7 +475,7 @@ pub fn gen_sc(rng: &mut Rng, hostile: bool, multi: bool) -> Sc {
                 };
                 details.push(Detail {
                     reference: if hostile && rng.chance(1, 6) {
-                        Some(["a)b", "ref (1)", " padded ", "ref;1"][rng.usize(4)].to_string())
+                        Some(["a)b", "ref (1)", " padded ", "ref;1", "", "\u{3000}wide padded\u{3000}", "\u{a0}nbsp"][rng.usize(7)].to_string())
                     } else if rng.chance(4, 5) {
                         Some(format!("20240131/{}/1", serial))
                     } else {
